@@ -851,6 +851,12 @@ def report_rejected(chk, rejected):
         what = "final" if depth == total else "results"
         if what == "final":
             detail = "+".join(rec.get("mismatch", [])) or "?"
+            if detail == "pub-objects" and "pub_rm" in concurrent_mutators(
+                    run, ["publish=ok"]):
+                # objects orphaned by a delta that raced with the removal
+                # of the publisher, adopted by the publisher added again
+                # under the same handle afterwards: the same defect
+                detail = "orphans"
         else:
             detail = "+".join(rec.get("stuck", [])) or "?"
             conc = concurrent_mutators(run, rec.get("stuck", []))
